@@ -71,8 +71,23 @@ func hostileValues(r *vf.Run) []*hval {
 	native("uint32(MaxUint32)", uint32(math.MaxUint32))
 	native("uint64(1<<63)", uint64(1<<63))
 	native("uint64(MaxUint64)", uint64(math.MaxUint64))
+	// values of NAMED types (an application's own type Label string, encoding/json's json.Number, a named int ...): the
+	// stored value must have the Go type of the format all the same
+	native("label(\"named string\")", label("named string"))
+	native("json.Number(\"42\")", json.Number("42"))
+	native("json.Number(\"12:30\")", json.Number("12:30"))
+	native("json.Number(\"1e400\")", json.Number("1e400"))
+	native("level(7)", level(7))
+	native("level(-70000)", level(-70000))
+	native("ratio(0.25)", ratio(0.25))
+	native("flag(true)", flag(true))
 	native("float32(0.5)", float32(0.5))
 	native("float32(-3e38)", float32(-3e38))
 	native("float32(1e10)", float32(1e10))
 	return out
 }
+
+type label string
+type level int
+type ratio float64
+type flag bool
